@@ -12,6 +12,20 @@ pub open spec fn key_order_ok<K: Ord>() -> bool {
     &&& forall|a: K, b: K, c: K| #![trigger key_lt(&a, &b), key_lt(&b, &c)] key_lt(&a, &b) && key_lt(&b, &c) ==> key_lt(&a, &c)
     &&& forall|a: K, b: K, c: K| #![trigger key_lt(&a, &b), key_lt(&c, &b)] !key_lt(&a, &b) && key_lt(&c, &b) ==> key_lt(&c, &a)
     &&& forall|a: K, b: K| #![trigger a.eq_spec(&b)] a.eq_spec(&b) ==> !key_lt(&a, &b) && !key_lt(&b, &a)
+    &&& forall|a: K, b: K| #![trigger key_lt(&a, &b)] key_lt(&a, &b) ==> !key_lt(&b, &a)
+}
+
+pub proof fn lemma_key_lt_trans<K: Ord>(a: &K, b: &K, c: &K)
+    requires key_order_ok::<K>(), key_lt(a, b), key_lt(b, c)
+    ensures key_lt(a, c)
+{
+    assert(key_lt(&*a, &*b) && key_lt(&*b, &*c));
+}
+pub proof fn lemma_key_not_lt_trans<K: Ord>(a: &K, b: &K, c: &K)
+    requires key_order_ok::<K>(), !key_lt(a, b), key_lt(c, b)
+    ensures key_lt(c, a)
+{
+    assert(!key_lt(&*a, &*b) && key_lt(&*c, &*b));
 }
 
 //@trait src/iterator.rs :: RainDbIterator
